@@ -339,6 +339,12 @@ Section Mirrors.
                   | None => None end).
   Proof. reflexivity. Qed.
 
+  Lemma cexec_decl f sg x t init rest :
+    cexec (S f) sg (NDecl x t init false :: rest) =
+    ccont f rest (match ceval sem augsem info init sg with
+                  | Some v => Some ((x, (t, conv t v)) :: sg, [], ONormal) | None => None end).
+  Proof. reflexivity. Qed.
+
   Lemma cexec_break f sg rest : cexec (S f) sg (NBreak :: rest) = Some (sg, [], OBreak).
   Proof. reflexivity. Qed.
 
